@@ -983,7 +983,8 @@ def c13_doc(p):
     tpl = []
     if p.get('parent'):
         tpl += [O('m', PN), "\n"]
-    tpl += [g('a_i'), g('a_t', 'nb'), "" if p.get('pure') else "A", "\n"]
+    if not p.get('first'):   # (first=1: the removed block begins on the first line of the file)
+        tpl += [g('a_i'), g('a_t', 'nb'), "" if p.get('pure') else "A", "\n"]
     for i in range(p['b']):
         tpl += [g(f'bl{i}'), "\n"]
     tpl += [g('tag_i'), O('m', RX), "\n", g('c_i'), "x", g('c_t', 'nb'), "\n"]
@@ -1036,8 +1037,8 @@ def c13_block(ctx, p):
     got_all = split_lines(out)
     got = [l for l in got_all if B.strip(l)]
     ctx.check(lines_equal(got, in_lines), f'non-blank output lines {show_lines(got)} != surviving input lines {show_lines(in_lines)}', 'line-not-intact')
-    if p.get('eof_tag'):
-        return   # no surviving line behind the block: the residue clause does not apply
+    if p.get('eof_tag') or p.get('first'):
+        return   # no surviving line behind / in front of the block: the residue clause does not apply
     # 2. blank-line residue between the neighbours of each removed block
     def blanks_between(k):
         """whitespace-only lines in the output between the k-th and (k+1)-th non-blank line"""
@@ -1076,6 +1077,9 @@ def c13_jobs(tier, seed):
         J(f'nested ready block b={b} a={a}', a=a, b=b, inner=1, holes=dict(tag_i=1, in_i=2, cin_i=1))
         J(f'pending parent b={b} a={a}', a=a, b=b, parent=1, holes=dict(tag_i=2, a_i=2, z_i=1))
         J(f'no final newline b={b} a={a}', a=a, b=b, final_nl=0, holes=dict(z_t=2, z_i=1, al0=1 if a else 0))
+    for hs in (dict(tag_i=2, ctag_i=2), dict(tag_i=1, c_i=2, z_i=1), dict(ctag_i=2, z_t=1)):   # the block begins on the first line of the file
+        J(f'block on the first line holes={hs}', a=0, b=0, first=1, holes=hs)
+        J(f'block on the first line, blank line behind, holes={hs}', a=1, b=0, first=1, holes=hs)
     for b in (0, 1):   # the closing tag is the last thing in the file, multi-byte text earlier
         J(f'closing tag at end of input b={b}, multi-byte text before', a=0, b=b, eof_tag=1, holes=dict(a_t=3, ctag_i=1))
         J(f'closing tag at end of input b={b}, multi-byte text inside', a=0, b=b, eof_tag=1, holes=dict(c_t=3, tag_i=1, a_t=1))
